@@ -13,7 +13,11 @@
      fault / INIT / PROG / k short e -> "<trace with results> / <stderr entries> / <listing>"  (k = -1: no fault)
      snap / INIT / PROG / CUR        -> "ok" | "bad <hexpath>"   (CUR in init syntax: a snapshot of a real tree)
      tmpfree / INIT / PROG           -> "1" | "0"
-     foreign / INIT / PROG / CUR / c -> "ok" | "bad <hexpath>"   (Spec.CrashSpec.foreign_bad; c = 1 complete run, 0 crash snapshot) *)
+     foreign / INIT / PROG / CUR / c -> "ok" | "bad <hexpath>"   (Spec.CrashSpec.foreign_bad; c = 1 complete run, 0 crash snapshot)
+   Link-aware model (Model/FsLinks.v; in INIT the data of an L entry is the entry name the link refers to; LPROG: S/T/E, X <hexpath>):
+     lfault / INIT / LPROG / N | F k short e | K k n -> as fault, from Model.FsLinks.lrun
+     lunnamed / INIT / LPROG / CUR   -> "ok" | "bad <hexpath>"   (Model.FsLinks.l_unnamed_changed)
+     errline <kind> <hexpath> <hexdetail> -> hex of Model.SaveLog.error_line *)
 let rec split_sections (toks : string list) : string list list =
   let rec go cur acc = function
     | [] -> List.rev (List.rev cur :: acc)
@@ -39,6 +43,17 @@ let parse_prog (toks : string list) : action list =
     | "E" :: p :: d :: rest -> go (AIfSaved (false, bytes_of_hex p, bytes_of_hex d) :: acc) rest
     | [] -> List.rev acc
     | _ -> failwith "bad prog" in
+  go [] toks
+
+(* lprog (Model/FsLinks.v): S/T/E as in prog; X <hexpath> = LCheckExec *)
+let parse_lprog (toks : string list) : laction list =
+  let rec go acc = function
+    | "S" :: p :: d :: rest -> go (LSave (bytes_of_hex p, bytes_of_hex d) :: acc) rest
+    | "X" :: p :: rest -> go (LCheckExec (bytes_of_hex p) :: acc) rest
+    | "T" :: p :: d :: rest -> go (LIfSaved (true, bytes_of_hex p, bytes_of_hex d) :: acc) rest
+    | "E" :: p :: d :: rest -> go (LIfSaved (false, bytes_of_hex p, bytes_of_hex d) :: acc) rest
+    | [] -> List.rev acc
+    | _ -> failwith "bad lprog" in
   go [] toks
 
 let parse_ops (toks : string list) : op list =
@@ -67,11 +82,11 @@ let show_op (o : op) : string =
 let show_ops (l : op list) : string = String.concat " " (List.map show_op l)
 
 let show_errno (e : errno) : string =
-  match e with ENOENT -> "ENOENT" | EBADF -> "EBADF" | ENOSPC -> "ENOSPC" | EIO -> "EIO" | EACCES -> "EACCES" | EXDEV -> "EXDEV" | EEXIST -> "EEXIST"
+  match e with ENOENT -> "ENOENT" | EBADF -> "EBADF" | ENOSPC -> "ENOSPC" | EIO -> "EIO" | EACCES -> "EACCES" | EXDEV -> "EXDEV" | EEXIST -> "EEXIST" | ELOOP -> "ELOOP"
 
 let parse_errno (s : string) : errno =
   match s with
-  | "ENOENT" -> ENOENT | "EBADF" -> EBADF | "ENOSPC" -> ENOSPC | "EIO" -> EIO | "EACCES" -> EACCES | "EXDEV" -> EXDEV | "EEXIST" -> EEXIST
+  | "ENOENT" -> ENOENT | "EBADF" -> EBADF | "ENOSPC" -> ENOSPC | "EIO" -> EIO | "EACCES" -> EACCES | "EXDEV" -> EXDEV | "EEXIST" -> EEXIST | "ELOOP" -> ELOOP
   | _ -> failwith "bad errno"
 
 let show_fs (m : fsmap) : string =
@@ -106,6 +121,25 @@ let handle (args : string list) : string =
     (match foreign_bad (c = "1") (parse_init init).st_fs (parse_prog prog) (parse_init cur).st_fs with
      | None -> "ok"
      | Some p -> "bad " ^ hex_of_bytes p)
+  | [["lfault"]; init; prog; plan] ->
+    let plan = (match plan with
+      | ["N"] -> PNone
+      | ["F"; k; short; e] -> PFail (nat_of_int (int_of_string k), { fl_short = nat_of_int (int_of_string short); fl_errno = parse_errno e })
+      | ["K"; k; n] -> PKill (nat_of_int (int_of_string k), nat_of_int (int_of_string n))
+      | _ -> failwith "bad plan") in
+    let w = lrun_plan (parse_init init) (parse_lprog prog) plan in
+    let tr = String.concat " " (List.map (fun (o, r) ->
+        show_op o ^ " =" ^ (match r with None -> "ok" | Some e -> show_errno e)) w.lw_trace) in
+    let er = String.concat " " (List.map (fun (k, p) -> show_kind k ^ " " ^ hex_of_bytes p) w.lw_stderr) in
+    tr ^ " / " ^ er ^ " / " ^ show_fs w.lw_st.st_fs
+  | [["lunnamed"]; init; prog; cur] ->
+    (match l_unnamed_changed (parse_init init).st_fs (parse_lprog prog) (parse_init cur).st_fs with
+     | None -> "ok"
+     | Some p -> "bad " ^ hex_of_bytes p)
+  | ["errline"; k; p; d] :: [] ->
+    let kind = (match k with "write" -> CannotWrite | "overwrite" -> CannotOverwrite | "chmod" -> CannotClearExec | _ -> failwith "bad kind") in
+    let h = hex_of_bytes (error_line (kind, bytes_of_hex p) (bytes_of_hex d)) in
+    if h = "" then "-" else h
   | [["tmpfree"]; init; prog] -> if tmp_freeb (parse_init init).st_fs (parse_prog prog) then "1" else "0"
   | _ -> "ERR:bad request"
 let () = serve handle
